@@ -192,7 +192,7 @@ class Maker:
              "np_seed": rng.randrange(2 ** 31)}
         if cls in ("Antenna", "ProbeAntenna"):
             p["antenna_factor"] = rng.choice([1.0, 2.0, 0.37, 10 ** rng.uniform(-2, 2)])
-            p["efficiency"] = rng.choice([1.0, 0.5, rng.uniform(0.05, 1.5)])
+            p["efficiency"] = rng.choice([1.0, 0.5, rng.uniform(0.05, 1.5), rng.uniform(0.05, 1.5), 0, 0.0, 1])
         else:
             fc = rng.choice([250e6, 500e6, 10 ** rng.uniform(7.5, 9)])
             p["center_frequency"] = fc
@@ -1417,6 +1417,76 @@ def probe_shared_signal(ctx):
     ctx.extra["shared_signal_probe_counts"] = stats
 
 
+def probe_system_histories(ctx):
+    """receive / read / clear histories THROUGH AntennaSystem: after every step `system.signals` must hold exactly the
+    signals received since the last clear(), each equal to the antenna's response to THAT signal (the base system's front
+    end passes signals through)."""
+    import pyrex
+    rng = ctx.rng
+    mk = Maker(rng)
+    stats = {"histories": 0, "ops": {}}
+    for it in range(ctx.n(30, 600)):
+        cls = rng.choice(["Antenna", "DipoleAntenna", "DipoleAntenna", "ProbeAntenna"])
+        p = mk.params(cls)
+        ant = mk.build(p)
+        sysobj = mk.wrap(ant)
+        H = response_H(p)
+        af, eff = antenna_factor_expected(p)
+        n = rng.choice([4, 8, 16])
+        times, _ = rand_signal_data(rng, n)
+        expected = []                     # (want, tol) of every signal received since the last clear
+        history = []
+        stats["histories"] += 1
+        ok = True
+        for step in range(rng.randint(3, 8)):
+            op = rng.choice(["receive", "receive", "read", "read", "clear"])
+            stats["ops"][op] = stats["ops"].get(op, 0) + 1
+            if op == "receive":
+                _, xv = rand_signal_data(rng, n)
+                vt = rng.choice([1, 2])
+                direction, pol = rand_dir(rng) * vscale(rng), rand_dir(rng) * vscale(rng)
+                fr = rng.random() < 0.5
+                with np.errstate(all="ignore"):
+                    sysobj.receive(make_signal(times, xv, vt), direction=direction, polarization=pol, force_real=fr)
+                fx, hmax = oracle_filter(times, xv, H, fr)
+                d, pg, dd, pp = expected_gains(oracle_axes(ant, p), p, direction, pol)
+                k = eff / (af if vt == 2 else 1.0)
+                want = fx * d * pg * k
+                tol = filter_tol(xv, hmax, d * pg * k) + (dd * abs(pg) + abs(d) * pp + 64 * EPS * abs(d * pg)) * abs(k) * max(float(np.max(np.abs(fx))), float(np.max(np.abs(xv)))) \
+                    + 1e-9 * float(np.max(np.abs(want))) + 1e-300
+                expected.append((want, tol))
+                history.append({"op": "receive", "values": [float(v) for v in xv], "value_type": vt, "direction": [float(v) for v in direction],
+                                "polarization": [float(v) for v in pol], "force_real": fr})
+            elif op == "clear":
+                sysobj.clear(reset_noise=rng.random() < 0.3)
+                expected = []
+                history.append({"op": "clear"})
+            else:
+                history.append({"op": "read"})
+            if op != "read" and rng.random() < 0.5:
+                continue                                   # not every change is followed by a read
+            rep = {"kind": "system_history", "params": p, "times": [float(t) for t in times], "history": [dict(h) for h in history]}
+            ctx.case(key=("system_history", it, step))
+            with np.errstate(all="ignore"):
+                got = list(sysobj.signals)
+            if len(got) != len(expected) or len(ant.signals) != len(expected):
+                ctx.fail("system-signals-count:%s" % cls, "after %s: AntennaSystem.signals holds %d signals (its antenna %d), %d were received since the last clear()" % (
+                    [h["op"] for h in history], len(got), len(ant.signals), len(expected)), rep)
+                ok = False
+                break
+            for j, (g_, (want, tol)) in enumerate(zip(got, expected)):
+                err = float(np.max(np.abs(np.asarray(g_.values, float) - want)))
+                if not (err <= tol and np.array_equal(np.asarray(g_.times, float), times)):
+                    ctx.fail("system-signals-stale:%s" % cls,
+                             "after %s: AntennaSystem.signals[%d] is not the response to the signal received at that position since the last clear() (max error %.3g > %.3g)" % (
+                                 [h["op"] for h in history], j, err, tol), rep)
+                    ok = False
+                    break
+            if not ok:
+                break
+    ctx.extra["system_history_counts"] = stats
+
+
 # ---------------------------------------------------------------------------- entry points
 def run(ctx):
     ctx.rule = ("correspondence cases: (class, constructor parameters, orientation, point / signal / value type / direction / polarization / force_real), "
@@ -1444,6 +1514,7 @@ def run(ctx):
         probe_receive(ctx)
         probe_orientation(ctx)
         probe_shared_signal(ctx)
+        probe_system_histories(ctx)
         return
     ok = ctx.coq_build("C08")
     if ok:
@@ -1456,6 +1527,7 @@ def run(ctx):
     probe_receive(ctx)
     probe_orientation(ctx)
     probe_shared_signal(ctx)
+    probe_system_histories(ctx)
 
 
 def replay(ctx, obj):
